@@ -79,6 +79,12 @@ M = [
     ("c15_callback_async", "C15", "client/client.go", "\tif publish.Message.QOS <= 1 || c.earlyCallback {\n\t\tif c.Callback != nil {\n\t\t\terr := c.Callback(&publish.Message, nil)", "\tif publish.Message.QOS <= 1 || c.earlyCallback {\n\t\tif c.Callback != nil && publish.Message.QOS == 0 {\n\t\t\tgo c.Callback(&publish.Message, nil)\n\t\t} else if c.Callback != nil {\n\t\t\terr := c.Callback(&publish.Message, nil)"),
     ("c15_overwrite_keeps_slot", "C15", "session/packet_store.go", "\t\ts.counter++\n\t\ts.order[id] = s.counter\n", "\t\tif _, ok := s.order[id]; !ok {\n\t\t\ts.counter++\n\t\t\ts.order[id] = s.counter\n\t\t}\n"),
     ("c15_service_publish_async", "C15", "client/service.go", "\t\t\t\tf2, err := client.PublishMessage(cmd.message)\n", "\t\t\t\tif cmd.message.QOS == 0 {\n\t\t\t\t\tgo client.PublishMessage(cmd.message)\n\t\t\t\t\tcmd.future.Complete(nil)\n\t\t\t\t\tcontinue\n\t\t\t\t}\n\t\t\t\tf2, err := client.PublishMessage(cmd.message)\n"),
+    # ---- C10
+    ("c10_ignore_unknown_pubrel", "C10", "client/client.go", "\t\t// ignore a wrongly sent Pubrel packet if not connected\n\t\tif atomic.LoadUint32(&c.state) != clientConnected {\n\t\t\treturn nil\n\t\t}\n", "\t\t// ignore a wrongly sent Pubrel packet if not connected\n\t\tif atomic.LoadUint32(&c.state) <= clientDisconnected {\n\t\t\treturn nil\n\t\t}\n"),
+    ("c10_delete_after_pubcomp", "C10", "client/client.go", "\terr = c.Session.DeletePacket(session.Incoming, id)\n\tif err != nil {\n\t\treturn c.die(err, true)\n\t}\n\n\t// prepare pubcomp packet\n\tpubcomp := packet.NewPubcomp()\n\tpubcomp.ID = publish.ID\n\n\t// acknowledge Publish packet\n\terr = c.send(pubcomp, true)\n\tif err != nil {\n\t\treturn c.die(err, false)\n\t}\n", "\t// prepare pubcomp packet\n\tpubcomp := packet.NewPubcomp()\n\tpubcomp.ID = publish.ID\n\n\t// acknowledge Publish packet\n\terr = c.send(pubcomp, true)\n\tif err != nil {\n\t\treturn c.die(err, false)\n\t}\n\n\terr = c.Session.DeletePacket(session.Incoming, id)\n\tif err != nil {\n\t\treturn c.die(err, true)\n\t}\n"),
+    ("c10_dup_not_stored", "C10", "client/client.go", "\tif publish.Message.QOS == 2 {\n\t\t// store packet\n\t\terr := c.Session.SavePacket(session.Incoming, publish)\n\t\tif err != nil {\n\t\t\treturn c.die(err, true)\n\t\t}\n", "\tif publish.Message.QOS == 2 {\n\t\t// store packet\n\t\tvar err error\n\t\tif !publish.Dup {\n\t\t\terr = c.Session.SavePacket(session.Incoming, publish)\n\t\t}\n\t\tif err != nil {\n\t\t\treturn c.die(err, true)\n\t\t}\n"),
+    ("c10_reject_still_acks", "C10", "client/client.go", "\t\t\terr := c.Callback(&publish.Message, nil)\n\t\t\tif err != nil {\n\t\t\t\treturn c.die(err, true)\n\t\t\t}\n\t\t}\n\t}\n\t// handle qos 1 flow", "\t\t\terr := c.Callback(&publish.Message, nil)\n\t\t\tif err != nil {\n\t\t\t\tif publish.Message.QOS == 1 {\n\t\t\t\t\t_ = c.send(&packet.Puback{ID: publish.ID}, false)\n\t\t\t\t}\n\t\t\t\treturn c.die(err, true)\n\t\t\t}\n\t\t}\n\t}\n\t// handle qos 1 flow"),
+    ("c10_callback_on_publish_too", "C10", "client/client.go", "\tif publish.Message.QOS <= 1 || c.earlyCallback {", "\tif publish.Message.QOS <= 1 || c.earlyCallback || publish.Dup {"),
     # ---- C20
     ("c20_suback_reversed", "C20", "broker/client.go", "\t\tsuback.ReturnCodes[i] = subscription.QOS", "\t\tsuback.ReturnCodes[len(pkt.Subscriptions)-1-i] = subscription.QOS"),
     ("c20_ignore_unexpected", "C20 C14", "broker/client.go", "\tdefault:\n\t\terr = c.die(ClientError, ErrUnexpectedPacket)\n\t}\n\n\t// return eventual error", "\tdefault:\n\t}\n\n\t// return eventual error"),
